@@ -94,6 +94,22 @@ def run(ctx, rep):
             rep.violation("C10.1", cons, f"{name}: {why}", f"{f.path}:{call.lineno}")
         else:
             rep.ok("C10.1", cons, f"guarded by {sorted(flags_seen)}; applied to and replacing the running circuit", f"{f.path}:{calls[name][0].lineno}")
+    # an override dictionary is never dropped silently: without a let-expanding flag it is rejected
+    cons = construct_of(f, "override-never-ignored")
+    guard_o = None
+    for st in iter_stmts(f.body):
+        if isinstance(st, ast.If) and any(isinstance(x, ast.Raise) for x in st.body):
+            tn = names_in(st.test)
+            outer = fl.control_tests(st)
+            on = set(tn)
+            for t in outer:
+                on |= names_in(t)
+            if "override_dict" in on and ({"expand_let", "expand_let_map"} & on):
+                guard_o = st
+    if guard_o is not None:
+        rep.ok("C10.1", cons, f"`{ast.unparse(guard_o.test)}` raises when an override is given but no let-expanding flag is set", f"{f.path}:{guard_o.lineno}")
+    else:
+        rep.violation("C10.1", cons, "parse_jaqal_string(text, override_dict=..) without expand_let/expand_let_map accepts the dictionary and ignores it: the circuit is built (and later executed) with the declared values, with no error or warning", f.loc(), witness="parse_jaqal_string('let n 3 ...', override_dict={'n': 1})")
     # order: alias fill-in after let substitution (fill_in_map never precedes fill_in_let on a path)
     cons = construct_of(f, "order:let-before-map")
     if "fill_in_map" in calls and "fill_in_let" in calls:
